@@ -202,5 +202,124 @@ def apply(dst, mode):   # noqa: F811
     return _old_apply2(dst, mode)
 
 
+# ---- comp-to-loop: `name = [E for t in it if c]`  ->  `name = []` + `for t in it: if c: name.append(E)`  (and the dict form with
+#      `name[K] = V`) for comprehensions with ONE generator that are the whole right-hand side of an assignment to one local name.
+#      Safe only if the loop variables are used nowhere else in the function (a comprehension does not leak them, a loop does), the
+#      comprehension contains no lambda / nested comprehension using the loop variable late, and `name` does not occur in it.
+class CompToLoop(ast.NodeTransformer):
+    n = 0
+
+    def _fn(self, node):
+        self.generic_visit(node)
+        names_all = [x.id for x in ast.walk(node) if isinstance(x, ast.Name)]
+        new_body = self._block(node.body, names_all)
+        node.body = new_body
+        return node
+
+    visit_FunctionDef = _fn
+
+    def _block(self, body, names_all):
+        out = []
+        for st in body:
+            for fld in ("body", "orelse", "finalbody"):
+                if isinstance(getattr(st, fld, None), list) and not isinstance(st, (ast.FunctionDef, ast.ClassDef, ast.AsyncFunctionDef)):
+                    setattr(st, fld, self._block(getattr(st, fld), names_all) or getattr(st, fld))
+            rep = self._rewrite(st, names_all)
+            out += rep if rep else [st]
+        return out
+
+    def _unconditional_comps(self, e):
+        """comprehensions inside expression e that are evaluated exactly once whenever e is evaluated"""
+        out = []
+
+        def walk(x):
+            if isinstance(x, (ast.ListComp, ast.DictComp)):
+                out.append(x)
+                return
+            if isinstance(x, (ast.Lambda, ast.IfExp, ast.BoolOp, ast.SetComp, ast.GeneratorExp, ast.NamedExpr, ast.Compare)):
+                return
+            for c in ast.iter_child_nodes(x):
+                walk(c)
+        walk(e)
+        return out
+
+    def _rewrite(self, st, names_all):
+        direct = isinstance(st, ast.Assign) and len(st.targets) == 1 and isinstance(st.targets[0], ast.Name) \
+            and isinstance(st.value, (ast.ListComp, ast.DictComp)) and len(st.value.generators) == 1
+        if not direct:
+            # a comprehension that is an operand of the statement's expression: hoisted into a fresh accumulator in front of it
+            if not (isinstance(st, (ast.Assign, ast.Return, ast.Expr, ast.AugAssign)) and getattr(st, "value", None) is not None):
+                return None
+            comps = self._unconditional_comps(st.value)
+            if len(comps) != 1 or len(comps[0].generators) != 1:
+                return None
+            # nothing with an effect may be evaluated before the comprehension in this statement: require that every Call that
+            # precedes it in source order is an attribute lookup chain only (np.asarray, jnp.concatenate) -- approximated by: the
+            # comprehension is the first comprehension / call argument evaluated (no other Call node starts before it)
+            c0 = comps[0]
+            earlier = [x for x in ast.walk(st.value) if isinstance(x, ast.Call) and (x.lineno, x.col_offset) < (c0.lineno, c0.col_offset)
+                       and not any(y is c0 for y in ast.walk(x))]
+            if earlier:
+                return None
+            name = f"_acc{CompToLoop.n}"
+            if name in names_all:
+                return None
+            fake = ast.Assign(targets=[ast.Name(id=name, ctx=ast.Store())], value=c0)
+            rep = self._rewrite(fake, names_all + [name])
+            if not rep:
+                return None
+
+            class _Sub(ast.NodeTransformer):
+                def visit_ListComp(self_, n_):
+                    return ast.Name(id=name, ctx=ast.Load()) if n_ is c0 else n_
+                visit_DictComp = visit_ListComp
+            st.value = _Sub().visit(st.value)
+            return rep + [st]
+        comp, gen, name = st.value, st.value.generators[0], st.targets[0].id
+        if gen.is_async or any(isinstance(x, (ast.Lambda, ast.ListComp, ast.DictComp, ast.SetComp, ast.GeneratorExp, ast.NamedExpr, ast.Yield, ast.Await))
+                               for x in ast.walk(comp) if x is not comp):
+            return None
+        tvars = [x.id for x in ast.walk(gen.target) if isinstance(x, ast.Name)]
+        inside = [x.id for x in ast.walk(comp) if isinstance(x, ast.Name)]
+        if name in inside or any(names_all.count(v) != inside.count(v) for v in tvars):
+            return None
+        if isinstance(comp, ast.ListComp):
+            init = ast.Assign(targets=[ast.Name(id=name, ctx=ast.Store())], value=ast.List(elts=[], ctx=ast.Load()))
+            inner = ast.Expr(value=ast.Call(func=ast.Attribute(value=ast.Name(id=name, ctx=ast.Load()), attr="append", ctx=ast.Load()), args=[comp.elt], keywords=[]))
+        else:
+            init = ast.Assign(targets=[ast.Name(id=name, ctx=ast.Store())], value=ast.Dict(keys=[], values=[]))
+            inner = ast.Assign(targets=[ast.Subscript(value=ast.Name(id=name, ctx=ast.Load()), slice=comp.key, ctx=ast.Store())], value=comp.value)
+        body = [inner]
+        for c in reversed(gen.ifs):
+            body = [ast.If(test=c, body=body, orelse=[])]
+        loop = ast.For(target=gen.target, iter=gen.iter, body=body, orelse=[])
+        CompToLoop.n += 1
+        return [init, loop]
+
+
+def _comp_apply(dst):
+    CompToLoop.n = 0
+    for root, _d, files in os.walk(os.path.join(dst, core.PKG)):
+        for f in files:
+            if f.endswith(".py"):
+                path = os.path.join(root, f)
+                src = open(path, encoding="utf-8").read()
+                tree = CompToLoop().visit(ast.parse(src))
+                ast.fix_missing_locations(tree)
+                new = "\n".join(l for l in src.split("\n")[:3] if l.startswith("#")) + "\n" + ast.unparse(tree) + "\n"
+                compile(new, path, "exec")
+                open(path, "w", encoding="utf-8").write(new)
+    return CompToLoop.n
+
+
+_old_apply3 = apply
+
+
+def apply(dst, mode):   # noqa: F811
+    if mode == "comp-to-loop":
+        return _comp_apply(dst)
+    return _old_apply3(dst, mode)
+
+
 if __name__ == "__main__":
     main()
